@@ -6,8 +6,27 @@
 -/
 import ScionTime.Proofs.Sample
 import ScionTime.Proofs.Multipath
+import ScionTime.Gen.Crypto
+import ScionTime.Gen.Client
 namespace ScionTime.C15
 open ScionTime.Sample ScionTime.Multipath List
+
+/-! ## Pins: the source shapes the models transcribe (regenerated from /repo on every run) -/
+
+theorem C15_pin_threshold31 : Gen.Crypto.randInt31_threshold = "uint32(-n) % uint32(n)" := by decide
+theorem C15_pin_threshold63 : Gen.Crypto.randInt63_threshold = "uint64(-n) % uint64(n)" := by decide
+theorem C15_pin_accept : Gen.Crypto.randInt31_accept = "x > t" ∧ Gen.Crypto.randInt63_accept = "x > t" := by decide
+theorem C15_pin_result : Gen.Crypto.randInt31_result = "int(x % uint32(n))" ∧
+    Gen.Crypto.randInt63_result = "int(x % uint64(n))" := by decide
+theorem C15_pin_wordBytes : Gen.Crypto.randInt31_wordBytes = 4 ∧ Gen.Crypto.randInt63_wordBytes = 8 := by decide
+theorem C15_pin_dispatch : Gen.Crypto.RandIntn_conds = "[n <= 0 n <= math.MaxInt32]" := by decide
+theorem C15_pin_sample : Gen.Crypto.Sample_loops = "for i := 0; i != k; i++ | for i := k; i != n; i++ | " ∧
+    Gen.Crypto.Sample_draw = "RandIntn(ctx, i+1)" ∧ Gen.Crypto.Sample_pickCond = "j < k" ∧
+    Gen.Crypto.Sample_pick = "pick(j, i)" := by decide
+/-- the repaired sticky guard (F11), the arguments of crypto.Sample and the final FTM call -/
+theorem C15_pin_round : Gen.Client.MeasureClockOffsetSCION_stickyGuard = "c.InInterleavedMode()" ∧
+    Gen.Client.MeasureClockOffsetSCION_sampleArgs = "len(sps) - nsps, len(ps)" ∧
+    Gen.Client.MeasureClockOffsetSCION_ftm = "measurements.FaultTolerantMidpoint(ms)" := by decide
 
 /-! ## The assignment (first three loops of MeasureClockOffsetSCION)
 
@@ -242,5 +261,145 @@ theorem C15_F11_old_counterexample :
     (assign false [⟨true, true, true, ""⟩] [""] false []).2 = [true] ∧
     (assign true [⟨true, true, true, ""⟩] [""] false []).2 = [false] := by
   constructor <;> decide
+
+/-! ## Rejection-sampled integers (crypto.randInt31 / randInt63 / RandIntn) -/
+
+/-- every stream element is a byte -/
+def Bytes (s : Stream) : Prop := ∀ b ∈ s, b < 256
+
+/-- randInt31 returns `x % n` for a 32-bit word `x` of the stream that passed the test
+    `x > t`, `t = uint32(-n) % uint32(n) = 2^32 mod n`; in particular the result is `< n`. -/
+theorem C15_randInt31_accepted (n : Nat) (c : Bool) (s : Stream) (v : Nat) (rest : Stream)
+    (hn : 2 ≤ n) (hb : Bytes s) (h : randInt31 n c s = .ok (v, rest)) :
+    ∃ x, two32 % n < x ∧ x < two32 ∧ v = x % n ∧ v < n := by
+  unfold randInt31 at h
+  have h2 : ¬ n < 2 := by omega
+  simp only [h2, ↓reduceIte] at h
+  split at h
+  · simp at h
+  · rename_i hmax
+    have ht : thr31 n = two32 % n := thr_eq two32 n (by unfold two32 maxInt32 at *; omega)
+    rw [ht] at h
+    clear ht hmax
+    induction s using draw31.induct (two32 % n) c with
+    | case1 b0 b1 b2 b3 rest' x hx =>
+      have hx' : two32 % n < le32 b0 b1 b2 b3 := hx
+      simp only [draw31, gt_iff_lt, hx', ↓reduceIte, Res.ok.injEq, Prod.mk.injEq] at h
+      refine ⟨le32 b0 b1 b2 b3, hx', ?_, h.1.symm, ?_⟩
+      · have h0 := hb b0 (by simp); have h1 := hb b1 (by simp)
+        have h2 := hb b2 (by simp); have h3 := hb b3 (by simp)
+        unfold le32 two32; omega
+      · rw [← h.1]; exact Nat.mod_lt _ (by omega)
+    | case2 b0 b1 b2 b3 rest' x hx hc =>
+      have hx' : ¬ two32 % n < le32 b0 b1 b2 b3 := hx
+      simp [draw31, hx', hc] at h
+    | case3 b0 b1 b2 b3 rest' x hx hc ih =>
+      have hx' : ¬ two32 % n < le32 b0 b1 b2 b3 := hx
+      have hc' : c = false := by simpa using hc
+      subst hc'
+      simp only [draw31, gt_iff_lt, hx', ↓reduceIte] at h
+      exact ih (fun b hb' => hb b (by simp [hb'])) (by simpa using h)
+    | case4 s' hs =>
+      unfold draw31 at h
+      split at h
+      · exact absurd rfl (hs _ _ _ _ _)
+      · simp at h
+
+/-- number of accepted words with residue `r`, as the length of the interval of quotients `j`
+    (see `C15_randInt_near_uniform`) -/
+def residueCount (W n r : Nat) : Nat :=
+  (if r < W % n then W / n + 1 else W / n) - (if W % n < r then 0 else 1)
+
+/-- Near-uniformity of the rejection step, for word size `W` (2^32 or 2^64) and the threshold
+    exactly as coded (`t = (W - n) % n`, accept iff `x > t`): the accepted words are the
+    interval `(t, W)`, and those with residue `r` are exactly `n*j + r` for `j` in an interval
+    of `residueCount W n r` consecutive quotients (`j ↦ n*j + r` is injective), … -/
+theorem C15_randInt_near_uniform (W n r x : Nat) (hn : 0 < n) (hnW : n ≤ W) (hr : r < n) :
+    ((W - n) % n < x ∧ x < W ∧ x % n = r) ↔
+    ∃ j, x = n * j + r ∧ (if W % n < r then 0 else 1) ≤ j ∧
+      j < (if W % n < r then 0 else 1) + residueCount W n r := by
+  rw [thr_eq W n hnW, residue_char W n r x hn hr]
+  have hq : 1 ≤ W / n := (Nat.le_div_iff_mul_le hn).mpr (by omega)
+  have : (if W % n < r then 0 else 1) + residueCount W n r = (if r < W % n then W / n + 1 else W / n) := by
+    unfold residueCount; split <;> split <;> omega
+  rw [this]
+
+/-- … and these counts differ by at most one between any two residues (each is `W/n` or
+    `W/n - 1`; the single short class is `r = W mod n`, because the code rejects `x = t` too):
+    a bias of at most one word in `2^32 - n < accepted ≤ 2^32`, the "2^-31 granularity". -/
+theorem C15_randInt_counts (W n r r' : Nat) (hn : 0 < n) (hnW : n ≤ W) :
+    residueCount W n r ≤ residueCount W n r' + 1 ∧
+    W / n - 1 ≤ residueCount W n r ∧ residueCount W n r ≤ W / n ∧
+    (residueCount W n r = W / n - 1 ↔ r = W % n) := by
+  have hq : 1 ≤ W / n := (Nat.le_div_iff_mul_le hn).mpr (by omega)
+  unfold residueCount
+  refine ⟨?_, ?_, ?_, ?_⟩ <;> (repeat' split) <;> omega
+
+/-- instances for the two word sizes of the code, `n` in the range of each function -/
+example (n r x : Nat) (hn : 2 ≤ n) (hn' : n ≤ maxInt32) (hr : r < n) :
+    (thr31 n < x ∧ x < two32 ∧ x % n = r) ↔
+    ∃ j, x = n * j + r ∧ (if two32 % n < r then 0 else 1) ≤ j ∧
+      j < (if two32 % n < r then 0 else 1) + residueCount two32 n r :=
+  C15_randInt_near_uniform two32 n r x (by omega) (by unfold two32 maxInt32 at *; omega) hr
+
+example : residueCount two32 3 0 = 1431655765 ∧ residueCount two32 3 1 = 1431655764 ∧
+    residueCount two32 3 2 = 1431655765 := by decide
+
+/-- RandIntn dispatches on `math.MaxInt32` and panics for `n ≤ 0` -/
+theorem C15_randIntn_dispatch (n : Int) (c : Bool) (s : Stream) :
+    (n ≤ 0 → ∃ m, randIntn n c s = .panic m) ∧
+    (0 < n → n ≤ 2147483647 → randIntn n c s = randInt31 n.toNat c s) ∧
+    (2147483647 < n → randIntn n c s = randInt63 n.toNat c s) := by
+  unfold randIntn maxInt32
+  refine ⟨fun h => ⟨"invalid argument: n must be greater than 0", by simp [h]⟩, fun h1 h2 => ?_, fun h => ?_⟩
+  · have : ¬ n ≤ 0 := by omega
+    simp [this, h2]
+  · have h1 : ¬ n ≤ 0 := by omega
+    have h2 : ¬ n ≤ ((2147483647 : Nat) : Int) := by omega
+    simp only [h1, h2, ↓reduceIte]
+
+/-! ## Reservoir sampling (crypto.Sample), counting form over ideal uniform draws
+
+`allDraws k m` lists every vector of draws `(j_k, …, j_{k+m-1})` with `j_i ∈ [0, i]` — the
+equally likely outcomes of ideal `RandIntn(i+1)` calls — and `reservoir k js` is the content of
+`ps[0..k)` (as positions of the original list) after crypto.Sample's loop made those draws. -/
+
+/-- there are `(k+1)(k+2)…(k+m)` draw vectors -/
+theorem C15_allDraws_length (k m : Nat) :
+    (allDraws k (m + 1)).length = (allDraws k m).length * (k + m + 1) := by
+  rw [← outcomes_length, ← outcomes_length]; exact outcomes_length_succ k m
+
+/-- the reservoir always holds `k` distinct items out of those seen so far -/
+theorem C15_reservoir_distinct (k m : Nat) (js : List Nat) (h : js ∈ allDraws k m) :
+    (reservoir k js).length = k ∧ (reservoir k js).Nodup ∧ ∀ y ∈ reservoir k js, y < k + m :=
+  outcomes_inv k m (reservoir k js) (mem_map.mpr ⟨js, h, rfl⟩)
+
+/-- Per-step identities (the induction step of Algorithm R): for a reservoir of `k` distinct
+    items `< n`, among the `n+1` equally likely draws for item `n` the new item enters in
+    exactly `k` of them and every present item survives in exactly `n` of them. -/
+theorem C15_reservoir_step (k n : Nat) (res : List Nat) (hl : res.length = k) (hn : res.Nodup)
+    (hb : ∀ y ∈ res, y < n) (hk : k ≤ n + 1) :
+    countP (fun j => decide (n ∈ stepRes res j n)) (List.range (n + 1)) = k ∧
+    ∀ x ∈ res, countP (fun j => decide (x ∈ stepRes res j n)) (List.range (n + 1)) = n :=
+  ⟨step_count_new k n res ⟨hl, hn, hb⟩ hk, fun x hx => step_count_old k n x res ⟨hl, hn, hb⟩ hk hx⟩
+
+/-- Uniform inclusion (counting form, induction on the number of items): over all draw vectors
+    for `n = k + m` offered items, every item `x < n` is selected in exactly the fraction `k/n`
+    of them:  #{draws : x ∈ reservoir} · n = k · #{draws}.
+
+    This is the marginal (per-item) form. The joint form of DESIGN.md — every `k`-subset of
+    `[0,n)` is produced by the same number, `(n-k)!`, of draw vectors — is NOT proved here;
+    it would follow by the same induction with the case split `n ∈ S` / `n ∉ S`. -/
+theorem C15_reservoir_uniform_partial (k m x : Nat) (hx : x < k + m) :
+    countP (fun js => decide (x ∈ reservoir k js)) (allDraws k m) * (k + m) =
+      k * (allDraws k m).length := by
+  have h := inclusion_count k m x hx
+  unfold outcomes at h
+  rw [countP_map, length_map] at h
+  exact h
+
+/-- a concrete instance: 2 out of 4, item 3 is selected by 6 of the 12 draw vectors -/
+example : countP (fun js => decide (3 ∈ reservoir 2 js)) (allDraws 2 2) = 6 ∧
+    (allDraws 2 2).length = 12 := by decide
 
 end ScionTime.C15
